@@ -583,6 +583,11 @@ def ResolveBinaryExpressionType(
     assert isinstance(operation, op.Operation)
 
     if op.IsComparison(operation):
+        # Only operands of the same kind (scalar, vector, matrix) can be
+        # compared
+        if left.GetKind() != right.GetKind():
+            Errors.ERROR_INCOMPATIBLE_TYPES.Raise(left, right)
+
         # Cast may be still necessary if we compare integers with floats
         baseType = _GetCommonPrimitiveType(left, right)
 
